@@ -208,7 +208,7 @@ func (c *Ctx) frameMaxObs() []core.Ob {
 
 func init() {
 	Props["C03"] = PropDef{
-		Explanation: "R-TLG interval + taint forward dataflow on go/ssa with branch refinement, symbolic cap/len bounds and interprocedural summaries; R-PANIC triage; T-DISPATCH; R-PROGRESS; R-GUARD sign-check-before-success and string indexes; R-RAWREAD. Decided: Every integer decoded from the input in nbt and nbt/dynbt is proven in range before make / MakeSlice / slice bound / index / CopyN / divisor / loop bound / fixed-width accessor; sign tests lie on every path to a success exit; element loops make progress; reads are full reads and a byte adapter never invents a byte; explicit panics are triaged. A structural necessary condition of totality, not a proof of it.",
+		Explanation: "R-TLG interval + taint forward dataflow on go/ssa with branch refinement, symbolic cap/len bounds and interprocedural summaries; R-PANIC triage; T-DISPATCH; R-PROGRESS; R-GUARD sign-check-before-success and string indexes; R-RAWREAD; R-UNKTAG list element tag refused also for the empty list (R-TLG case split on the tag byte, feasible edges). Decided: Every integer decoded from the input in nbt and nbt/dynbt is proven in range before make / MakeSlice / slice bound / index / CopyN / divisor / loop bound / fixed-width accessor; sign tests lie on every path to a success exit; element loops make progress; reads are full reads and a byte adapter never invents a byte; explicit panics are triaged; a list header with an unknown element tag is refused on every path, also when no element is decoded. A structural necessary condition of totality, not a proof of it.",
 		Run: func(c *Ctx) []core.Ob {
 			in := pkgPred("nbt", "nbt/dynbt")
 			obs := c.TLGObs(in, in, true)
@@ -221,6 +221,7 @@ func init() {
 			obs = append(obs, c.Panics(c.Verif, roots, in, in)...)
 			obs = append(obs, c.TagDispatch("nbt", "nbt/dynbt")...)
 			obs = append(obs, c.ListProgress()...)
+			obs = append(obs, c.UnknownListTagRefused("nbt", "nbt/dynbt")...)
 			obs = append(obs, c.SignCheckBeforeSuccess(in)...)
 			obs = append(obs, filterObs(c.RawRead(), func(o core.Ob) bool { return strings.HasPrefix(o.Key, "nbt.") || strings.HasPrefix(o.Key, "nbt/") })...)
 			obs = append(obs, c.StringIndexGuards(in)...)
@@ -245,11 +246,12 @@ func init() {
 		},
 	}
 	Props["C07"] = PropDef{
-		Explanation: "R-TLG + R-TLG-MAX on the frame reader; R-POOL; R-ORDER unpack-success-assigns and threshold plumbing; T-CONNINIT; T-VARLEN; R-RAWREAD; R-ERRFLOW; R-NOBUF; R-ACCEPT the frame-length bound admits the largest accepted payload. Decided: Every declared length is sign-checked and bounded by the protocol maximum before CopyN / allocation / re-slice, and the bound on the frame length is not below what the largest accepted payload needs; a successful UnPack has stored ID and Data on every path; pooled buffers do not escape; every Conn starts uncompressed on the bare socket; frame length fields use the LEB128 length. Round-trip equality and zlib conformance are not decided.",
+		Explanation: "R-TLG + R-TLG-MAX on the frame reader; R-POOL; R-ORDER unpack-success-assigns and threshold plumbing; T-CONNINIT; T-VARLEN; R-RAWREAD; R-ERRFLOW; R-NOBUF; R-ACCEPT the frame-length bound admits the largest accepted payload; R-TLG-MAX id-counts (case split on the frame length: id plus payload within the maximum). Decided: Every declared length is sign-checked and bounded by the protocol maximum before CopyN / allocation / re-slice, and the bound on the frame length is not below what the largest accepted payload needs; a successful UnPack has stored ID and Data on every path; pooled buffers do not escape; every Conn starts uncompressed on the bare socket; frame length fields use the LEB128 length. A plain frame whose id plus payload exceed the maximum is refused. Round-trip equality and zlib conformance are not decided.",
 		Run: func(c *Ctx) []core.Ob {
 			in := c.reachPred([]string{"net/packet.(*Packet).UnPack", "net/packet.(*Packet).Pack"}, "net/packet")
 			obs := c.TLGObs(in, in, false)
 			obs = append(obs, c.frameMaxObs()...)
+			obs = append(obs, c.FrameMaximumCountsID()...)
 			obs = append(obs, filterObs(c.AcceptsLegitLengths(), func(o core.Ob) bool { return strings.Contains(o.Key, "net/packet") })...)
 			obs = append(obs, c.Pools("net/packet")...)
 			obs = append(obs, c.ThresholdPlumbing()...)
